@@ -183,12 +183,14 @@ pub fn reg_callback() -> (Arc<Cb>, ffi::RegisterReadCallback) {
 #[derive(Default)]
 pub struct States {
     pub seq: Mutex<Vec<i32>>,
+    pub at: Mutex<Vec<Instant>>,
     pub destroys: AtomicU32,
 }
 
 extern "C" fn state_on_change(state: c_int, ctx: *mut c_void) {
     let s = unsafe { &*(ctx as *const States) };
     s.seq.lock().unwrap().push(state);
+    s.at.lock().unwrap().push(Instant::now());
 }
 
 extern "C" fn state_on_destroy(ctx: *mut c_void) {
